@@ -315,7 +315,7 @@ Ev_HStart ==
 
 Ev_HRecvCall ==
   /\ hRecvStarted' = hRecvStarted + 1
-  /\ hPend' = <<"recv", Cardinality(cSendOk), hdrSent>>
+  /\ hPend' = <<"recv", Cardinality(cSendOk), hdrSent, cTerm.k # "none">>
   /\ UNCHANGED <<kind, tr, reqMd, cctx, fault, cSendStarted, cSendOk, closeSend,
           hRecvd, hSendStarted, hSendOk, cRecvd, cRecvStarted,
           cHdrStarted, hdrAcc, hdrSent, hdrCand, trlAcc, hState,
@@ -329,9 +329,13 @@ ChkHandlerMsg(msg) ==
 
 \* C08 (HTTP server): a single-request method given two requests must fail
 \* the handler's receive.  hPend[2] = requests fully sent when it started.
+\* C06 (in-process unary): the handler's decode callback copies the caller's
+\* request object; a decode that started after Invoke had returned to the
+\* caller (hPend[4]) and succeeded has read memory the caller owns again.
 Chk_HRecvRet(res, msg) ==
   IF res.k = "nil" THEN
        ChkHandlerMsg(msg)
+       \cup V(~(kind = "unary" /\ tr = "inproc" /\ hPend # <<>> /\ hPend[4]), "C06", "request-read-after-return")
        \cup V(~(tr = "http" /\ ~ReqStream /\ hPend # <<>> /\ hPend[2] >= 2), "C08", "second-request-accepted")
   ELSE IF res.k = "eof" THEN
        V(closeSend, "C01", "request-eof-without-closesend")
@@ -421,6 +425,19 @@ Ev_HSendHeaderRet(i, ok) ==
   /\ IF ok /\ hPend # <<>>
        THEN DefSend(Append(hdrAcc, i), hPend[3])
        ELSE UNCHANGED <<hdrCand, hdrSent>>
+  /\ hPend' = <<>>
+  /\ UNCHANGED <<kind, tr, reqMd, cctx, fault, cSendStarted, cSendOk, closeSend,
+          hRecvd, hRecvStarted, hSendStarted, hSendOk, cRecvd, cRecvStarted,
+          cHdrStarted, trlAcc, hState, hStatus, cTerm, winddown>>
+
+\* SendHeader as one atomic step (used by models in which it cannot block)
+Chk_HSendHeaderAtomic(i, ok) ==
+  IF ok THEN V(hdrSent # "yes", "C03", "sendheader-accepted-after-headers-sent")
+  ELSE V(~(hdrSent = "no" /\ cctx = "live" /\ ~fault /\ ~winddown), "C03", "sendheader-refused-before-send")
+
+Ev_HSendHeaderAtomic(i, ok) ==
+  /\ hdrAcc' = IF ok THEN Append(hdrAcc, i) ELSE hdrAcc
+  /\ IF ok THEN DefSend(Append(hdrAcc, i), hdrSent) ELSE UNCHANGED <<hdrCand, hdrSent>>
   /\ hPend' = <<>>
   /\ UNCHANGED <<kind, tr, reqMd, cctx, fault, cSendStarted, cSendOk, closeSend,
           hRecvd, hRecvStarted, hSendStarted, hSendOk, cRecvd, cRecvStarted,
